@@ -68,7 +68,7 @@ Fixpoint chain_common (version end_ h : N) (l : list snap) : res N :=
 Definition round_hash_common (node number : N) (l : list snap) : res (N * N * N) :=
   match sort l with
   | [] => Panic
-  | s0 :: _ as sl =>
+  | (s0 :: _) as sl =>
       let start := s_ts s0 in
       let end_ := s_ts (last sl s0) in
       if add64 start round_gap <=? end_ then Panic
@@ -101,7 +101,7 @@ Fixpoint chain_storage (version end_ h : N) (l : list tsnap) : res N :=
 Definition round_hash_storage (node number : N) (l : list tsnap) : res (N * N * N) :=
   match sort_t l with
   | [] => Panic
-  | s0 :: _ as sl =>
+  | (s0 :: _) as sl =>
       let start := s_ts (t_snap s0) in
       let end_ := s_ts (t_snap (last sl s0)) in
       if add64 start round_gap <=? end_ then Panic
